@@ -1,169 +1,229 @@
 package main
 
-// C14: HOW the operator's `checkpoints` document reaches a savepoint artifact in
-// snapshots.CreateSavepointArtifact (storage/snapshots/savepoint_artifact.go).
+// C14: three structural facts about storage/snapshots that choose the modelled variant (Model/Savepoint.lean).
 //
-//	savepointDocFromRead  1: the bytes obtained from the `.Read(...)` call at the start of the per-operator loop (the
-//	                         content the file list was taken from) are passed to a `.Write(...)` call in the function
-//	                         (proposed D53 repair, Model/Savepoint.lean `DocMode.writeRead`);
-//	                      0: they are only parsed, and the document file is copied again later (`DocMode.copyFile`).
+//	savepointDocFromRead   1: in CreateSavepointArtifact (or a helper it calls) the bytes obtained from the `.Read(...)` of an
+//	                          operator's document are passed to a `.Write(...)` (D53 repair, `DocMode.writeRead`);
+//	                       0: they are only parsed and the document FILE is copied (`.Copy(` present, no such Write).
+//	savepointJobFromBytes  1: CreateSavepointArtifact has a []byte parameter that reaches a `.Write(...)` (D65 repair,
+//	                          `JobMode.fromBytes`);  0: it has a string parameter that is the source of a `.Copy(...)`.
+//	savepointIdsCounted    1: Store.LoadCheckpoint, or a function it calls, scans the file store (`range <x>.List()`) and the
+//	                          scan or a function it calls mentions the "job.savepoint" file name (D66 repair: ids of existing
+//	                          savepoints are counted);  0: a scan is there and none of the reachable code mentions it.
 //
-// The recogniser is structural: it finds the variable assigned from a call whose selector is `Read`, and looks for a
-// call whose selector is `Write` with that variable anywhere in its arguments. Either way the behaviour is also
-// observed by the C14 correspondence (held creations: `release k hold=n` … `resume`, then `load`).
+// The recognisers follow calls to functions and methods declared in the package's files (store.go,
+// savepoint_artifact.go, snapshot.go), so moving a loop or a copy into a helper does not change a fact. When neither the
+// 1-shape nor the 0-shape is recognised the fact is reported as a PROBLEM (no value is invented: the last good value is
+// kept and tools/gofacts/fallbacks.json hands the decision to the C14 correspondence, which observes all three:
+// held creations, held creation + next publication, ids after `load`).
 
 import "go/ast"
 
 func init() { extraFactFns = append(extraFactFns, c14Facts) }
 
-func c14Facts(fc *facts) {
-	f := parseFile("storage/snapshots/savepoint_artifact.go")
-	fn := findFunc(f, "", "CreateSavepointArtifact")
-	if fn == nil || fn.Body == nil {
-		problemFor([]string{"savepointDocFromRead"}, "snapshots.CreateSavepointArtifact not found")
-		return
-	}
-	readVars := map[string]bool{}
-	ast.Inspect(fn.Body, func(x ast.Node) bool {
-		as, ok := x.(*ast.AssignStmt)
-		if !ok || len(as.Rhs) != 1 || len(as.Lhs) == 0 {
-			return true
-		}
-		call, ok := as.Rhs[0].(*ast.CallExpr)
-		if !ok {
-			return true
-		}
-		if sel, ok := call.Fun.(*ast.SelectorExpr); ok && sel.Sel.Name == "Read" {
-			if id, ok := as.Lhs[0].(*ast.Ident); ok && id.Name != "_" {
-				readVars[id.Name] = true
-			}
-		}
-		return true
-	})
-	if len(readVars) == 0 {
-		problemFor([]string{"savepointDocFromRead"}, "snapshots.CreateSavepointArtifact: no `x, err := <loc>.Read(...)` found")
-		return
-	}
-	written := false
-	ast.Inspect(fn.Body, func(x ast.Node) bool {
-		call, ok := x.(*ast.CallExpr)
-		if !ok {
-			return true
-		}
-		if sel, ok := call.Fun.(*ast.SelectorExpr); ok && sel.Sel.Name == "Write" {
-			for _, a := range call.Args {
-				ast.Inspect(a, func(y ast.Node) bool {
-					if id, ok := y.(*ast.Ident); ok && readVars[id.Name] {
-						written = true
-					}
-					return true
-				})
-			}
-		}
-		return true
-	})
-	v := uint64(0)
-	if written {
-		v = 1
-	}
-	fc.set("savepointDocFromRead", v, true, "")
+type c14Pkg struct {
+	decls map[string]*ast.FuncDecl
 }
 
-// savepointIdsCounted  1: Store.LoadCheckpoint also keeps the id counter above the ids of EXISTING SAVEPOINTS: it calls,
-//                         on the paths it lists, a function of the same file whose body mentions the "job.savepoint"
-//                         file name (proposed repair of the savepoint-id reuse);
-//                      0: only the loaded checkpoint's id and the job-*.snapshot files count (the code as it is).
-// Observed by the C14 correspondence either way: ids handed out after `load` when a savepoint with a higher id exists.
-func init() { extraFactFns = append(extraFactFns, c14CounterFacts) }
-
-func c14CounterFacts(fc *facts) {
-	f := parseFile("storage/snapshots/store.go")
-	fn := findFunc(f, "Store", "LoadCheckpoint")
-	if fn == nil {
-		fn = findFunc(f, "*Store", "LoadCheckpoint")
-	}
-	if fn == nil || fn.Body == nil {
-		problemFor([]string{"savepointIdsCounted"}, "snapshots.Store.LoadCheckpoint not found")
-		return
-	}
-	mentions := map[string]bool{} // functions of the file whose body mentions "job.savepoint"
-	for _, d := range f.Decls {
-		fd, ok := d.(*ast.FuncDecl)
-		if !ok || fd.Body == nil || fd.Name.Name == "LoadCheckpoint" {
-			continue
-		}
-		ast.Inspect(fd.Body, func(x ast.Node) bool {
-			if l, ok := x.(*ast.BasicLit); ok && l.Value == `"job.savepoint"` {
-				mentions[fd.Name.Name] = true
-			}
-			return true
-		})
-	}
-	counted := false
-	ast.Inspect(fn.Body, func(x ast.Node) bool {
-		switch n := x.(type) {
-		case *ast.CallExpr:
-			if id, ok := n.Fun.(*ast.Ident); ok && mentions[id.Name] {
-				counted = true
-			}
-		case *ast.BasicLit:
-			if n.Value == `"job.savepoint"` {
-				counted = true
-			}
-		}
-		return true
-	})
-	v := uint64(0)
-	if counted {
-		v = 1
-	}
-	fc.set("savepointIdsCounted", v, true, "")
-}
-
-// savepointJobFromBytes  1: CreateSavepointArtifact receives the job checkpoint's CONTENT (a []byte parameter) and
-//                           passes it to a `.Write(...)` call: job.savepoint is written from memory (proposed D65 repair);
-//                        0: it copies the job checkpoint FILE last (which the next publication's cleanup may have removed).
-// Observed by the C14 correspondence either way (held creation + release of the next publication, then `resume`).
-func init() { extraFactFns = append(extraFactFns, c14JobFacts) }
-
-func c14JobFacts(fc *facts) {
-	f := parseFile("storage/snapshots/savepoint_artifact.go")
-	fn := findFunc(f, "", "CreateSavepointArtifact")
-	if fn == nil || fn.Body == nil || fn.Type.Params == nil {
-		problemFor([]string{"savepointJobFromBytes"}, "snapshots.CreateSavepointArtifact not found")
-		return
-	}
-	byteParams := map[string]bool{}
-	for _, p := range fn.Type.Params.List {
-		if at, ok := p.Type.(*ast.ArrayType); ok && at.Len == nil {
-			if id, ok := at.Elt.(*ast.Ident); ok && id.Name == "byte" {
-				for _, n := range p.Names {
-					byteParams[n.Name] = true
+func c14LoadPkg() *c14Pkg {
+	p := &c14Pkg{decls: map[string]*ast.FuncDecl{}}
+	for _, rel := range []string{"storage/snapshots/store.go", "storage/snapshots/savepoint_artifact.go", "storage/snapshots/snapshot.go"} {
+		f := parseFile(rel)
+		for _, d := range f.Decls {
+			if fd, ok := d.(*ast.FuncDecl); ok && fd.Body != nil {
+				if _, dup := p.decls[fd.Name.Name]; !dup {
+					p.decls[fd.Name.Name] = fd
 				}
 			}
 		}
 	}
-	written := false
-	ast.Inspect(fn.Body, func(x ast.Node) bool {
-		call, ok := x.(*ast.CallExpr)
-		if !ok {
+	return p
+}
+
+// closure: root and every package function reachable from it through calls (by name; methods by selector name)
+func (p *c14Pkg) closure(root *ast.FuncDecl) []*ast.FuncDecl {
+	seen := map[string]bool{root.Name.Name: true}
+	out := []*ast.FuncDecl{root}
+	for i := 0; i < len(out) && len(out) < 40; i++ {
+		ast.Inspect(out[i].Body, func(x ast.Node) bool {
+			call, ok := x.(*ast.CallExpr)
+			if !ok {
+				return true
+			}
+			name := ""
+			switch f := call.Fun.(type) {
+			case *ast.Ident:
+				name = f.Name
+			case *ast.SelectorExpr:
+				name = f.Sel.Name
+			}
+			if fd := p.decls[name]; fd != nil && !seen[name] {
+				seen[name] = true
+				out = append(out, fd)
+			}
 			return true
-		}
-		if sel, ok := call.Fun.(*ast.SelectorExpr); ok && sel.Sel.Name == "Write" {
-			for _, a := range call.Args {
-				ast.Inspect(a, func(y ast.Node) bool {
-					if id, ok := y.(*ast.Ident); ok && byteParams[id.Name] {
-						written = true
-					}
-					return true
-				})
+		})
+	}
+	return out
+}
+
+func c14SelCalls(fn *ast.FuncDecl, sel string) []*ast.CallExpr {
+	var out []*ast.CallExpr
+	ast.Inspect(fn.Body, func(x ast.Node) bool {
+		if call, ok := x.(*ast.CallExpr); ok {
+			if s, ok := call.Fun.(*ast.SelectorExpr); ok && s.Sel.Name == sel {
+				out = append(out, call)
 			}
 		}
 		return true
 	})
-	v := uint64(0)
-	if written {
-		v = 1
+	return out
+}
+
+func c14Mentions(n ast.Node, names map[string]bool) bool {
+	found := false
+	ast.Inspect(n, func(y ast.Node) bool {
+		if id, ok := y.(*ast.Ident); ok && names[id.Name] {
+			found = true
+		}
+		return true
+	})
+	return found
+}
+
+func c14HasLit(fn *ast.FuncDecl, lit string) bool {
+	found := false
+	ast.Inspect(fn.Body, func(y ast.Node) bool {
+		if l, ok := y.(*ast.BasicLit); ok && l.Value == lit {
+			found = true
+		}
+		return true
+	})
+	return found
+}
+
+func c14Bool(b bool) uint64 {
+	if b {
+		return 1
 	}
-	fc.set("savepointJobFromBytes", v, true, "")
+	return 0
+}
+
+func c14Facts(fc *facts) {
+	p := c14LoadPkg()
+
+	// ---- savepointDocFromRead / savepointJobFromBytes
+	if root := p.decls["CreateSavepointArtifact"]; root == nil {
+		problemFor([]string{"savepointDocFromRead", "savepointJobFromBytes"}, "snapshots.CreateSavepointArtifact not found")
+	} else {
+		cl := p.closure(root)
+		// the function (root or helper) that reads an operator document: `x, err := <loc>.Read(...)`
+		docWritten, readFound, copyFound := false, false, false
+		for _, fn := range cl {
+			if len(c14SelCalls(fn, "Copy")) > 0 {
+				copyFound = true
+			}
+			readVars := map[string]bool{}
+			ast.Inspect(fn.Body, func(x ast.Node) bool {
+				as, ok := x.(*ast.AssignStmt)
+				if !ok || len(as.Rhs) != 1 || len(as.Lhs) == 0 {
+					return true
+				}
+				if call, ok := as.Rhs[0].(*ast.CallExpr); ok {
+					if sel, ok := call.Fun.(*ast.SelectorExpr); ok && sel.Sel.Name == "Read" {
+						if id, ok := as.Lhs[0].(*ast.Ident); ok && id.Name != "_" {
+							readVars[id.Name] = true
+						}
+					}
+				}
+				return true
+			})
+			if len(readVars) == 0 {
+				continue
+			}
+			readFound = true
+			for _, w := range c14SelCalls(fn, "Write") {
+				for _, a := range w.Args {
+					if c14Mentions(a, readVars) {
+						docWritten = true
+					}
+				}
+			}
+		}
+		switch {
+		case readFound && docWritten:
+			fc.set("savepointDocFromRead", 1, true, "")
+		case readFound && copyFound:
+			fc.set("savepointDocFromRead", 0, true, "")
+		default:
+			problemFor([]string{"savepointDocFromRead"}, "snapshots.CreateSavepointArtifact: neither `x := <loc>.Read(..) … <loc>.Write(.., x)` nor a document copy recognised")
+		}
+
+		// job.savepoint: from a []byte parameter through Write, or from a string parameter through Copy
+		byteParams, strParams := map[string]bool{}, map[string]bool{}
+		if root.Type.Params != nil {
+			for _, prm := range root.Type.Params.List {
+				if at, ok := prm.Type.(*ast.ArrayType); ok && at.Len == nil {
+					if id, ok := at.Elt.(*ast.Ident); ok && id.Name == "byte" {
+						for _, n := range prm.Names {
+							byteParams[n.Name] = true
+						}
+					}
+				}
+				if id, ok := prm.Type.(*ast.Ident); ok && id.Name == "string" {
+					for _, n := range prm.Names {
+						strParams[n.Name] = true
+					}
+				}
+			}
+		}
+		fromBytes, fromFile := false, false
+		for _, w := range c14SelCalls(root, "Write") {
+			for _, a := range w.Args {
+				if c14Mentions(a, byteParams) {
+					fromBytes = true
+				}
+			}
+		}
+		for _, c := range c14SelCalls(root, "Copy") {
+			if len(c.Args) > 0 && c14Mentions(c.Args[0], strParams) {
+				fromFile = true
+			}
+		}
+		switch {
+		case fromBytes && !fromFile:
+			fc.set("savepointJobFromBytes", 1, true, "")
+		case fromFile && !fromBytes:
+			fc.set("savepointJobFromBytes", 0, true, "")
+		default:
+			problemFor([]string{"savepointJobFromBytes"}, "snapshots.CreateSavepointArtifact: job.savepoint neither written from a []byte parameter nor copied from a string parameter")
+		}
+	}
+
+	// ---- savepointIdsCounted
+	if root := p.decls["LoadCheckpoint"]; root == nil {
+		problemFor([]string{"savepointIdsCounted"}, "snapshots.Store.LoadCheckpoint not found")
+	} else {
+		scans, mention := 0, false
+		for _, fn := range p.closure(root) {
+			ast.Inspect(fn.Body, func(x ast.Node) bool {
+				if rs, ok := x.(*ast.RangeStmt); ok {
+					if call, ok := rs.X.(*ast.CallExpr); ok {
+						if sel, ok := call.Fun.(*ast.SelectorExpr); ok && sel.Sel.Name == "List" {
+							scans++
+						}
+					}
+				}
+				return true
+			})
+			if c14HasLit(fn, `"job.savepoint"`) {
+				mention = true
+			}
+		}
+		if scans == 0 {
+			problemFor([]string{"savepointIdsCounted"}, "snapshots.Store.LoadCheckpoint: no scan of the file store (`range <x>.List()`) found in it or in the functions it calls")
+		} else {
+			fc.set("savepointIdsCounted", c14Bool(mention), true, "")
+		}
+	}
 }
